@@ -220,3 +220,42 @@ Fixpoint chain (lo : nat) (l : list nat) (hi : nat) : Prop :=
   | [] => lo <= hi
   | x :: r => lo <= x /\ chain (S x) r hi
   end.
+
+(* ------------------------------------------------------------------------------------------------
+   The destination direction with a reconnecting destination: feed -> agg/hub -> rwc client (Send of
+   capacity [dcap] = 2) -> RelayOut -> reconws.Out -> websocket connection to the destination, which may end
+   the session at any time; reconws dials again and goes on with whatever RelayOut hands it next
+   (internal/rwc/rwc.go RelayOut, internal/reconws/reconws.go Dial).  A message whose write fails at the cut
+   is not sent again by the code as it is: it is lost.  [dout] is everything the destination received, over
+   all its connections, in the order it received it. *)
+
+Record dst := mkdst {
+  dnext : nat;             (* index of the next hub message on the stream *)
+  dq : list part;          (* queued in the rwc client's Send channel *)
+  dout : list part         (* received by the destination, all connections, in order *)
+}.
+
+Inductive dev :=
+| DOffer            (* the hub offers the next message to the rwc client *)
+| DMiss (n : nat)   (* n messages offered while Send is full: dropped *)
+| DSend             (* the oldest queued message travels RelayOut -> reconws -> destination *)
+| DLose.            (* the oldest queued message is taken by RelayOut/reconws but its write fails at a cut *)
+
+Definition dinit : dst := mkdst 0 [] [].
+
+Section DestOut.
+  Variable msg_at : nat -> bytes.
+  Variable dcap : nat.
+
+  Definition dstep (s : dst) (e : dev) : dst :=
+    match e with
+    | DOffer =>
+        if length (dq s) <? dcap then mkdst (S (dnext s)) (dq s ++ [(dnext s, msg_at (dnext s))]) (dout s)
+        else mkdst (S (dnext s)) (dq s) (dout s)
+    | DMiss n => mkdst (dnext s + n) (dq s) (dout s)
+    | DSend => match dq s with p :: r => mkdst (dnext s) r (dout s ++ [p]) | [] => s end
+    | DLose => match dq s with _ :: r => mkdst (dnext s) r (dout s) | [] => s end
+    end.
+
+  Definition drun (evs : list dev) : dst := fold_left dstep evs dinit.
+End DestOut.
